@@ -982,7 +982,10 @@ func (x *e1) checkByzFlood(b *byzProxy) {
 			closed = x.conn == nil || connClosed(x.conn)
 		}
 		w := x.whereRole(reader)
-		if !closed && w != "cond:Put" && w != "exited" {
+		// judged only when the reader has taken everything off the transport and waits
+		// for more; a reader parked elsewhere (behind an unread message, or handing an
+		// invoke to a stream creation nobody performs) has not consumed the flood
+		if !closed && w == "net.read" {
 			x.viol("byz-memory", fmt.Sprintf("the %s kept its connection open after the peer sent one unfinished packet of many times the maximum (reader@%s)", role, w), fmt.Sprintf("%d bytes, maximum %d", n, x.prog.Cfg.ReaderMax))
 		}
 	}
